@@ -23,7 +23,9 @@ def main():
     tier = "thorough" if "--tier=thorough" in sys.argv else "quick"
     sd = os.path.abspath(args[0])
     meta = json.load(open(os.path.join(sd, "meta.json")))
-    prop = meta["property"]
+    import re
+    mm = re.match(r"C\d+", str(meta.get("property", ""))) or re.match(r"C\d+", os.path.basename(sd))
+    prop = mm.group(0)
     patch = os.path.join(sd, "patch.diff")
     env = dict(os.environ)
     wt = None
